@@ -8,6 +8,7 @@ import numpy as np
 
 import common
 import gen
+import routes
 import thr_common
 from common import Case, Issue, q, ql, il, line
 
@@ -107,7 +108,8 @@ def gen_one(rng, i, tier):
             ep = en = base_
         narrow, huge = None, True
     return {"stream": stream, "kind": kind, "pos": pos, "neg": neg, "ep": ep, "en": en, "sc": sc, "ec": ec,
-            "narrow": narrow, "prior": rng.random() < 0.3, "dt": dt, "huge": huge}
+            "narrow": narrow, "prior": rng.random() < 0.3, "dt": dt, "huge": huge,
+            "route": routes.pick(rng, 0.15) if (dt is None and not huge) else None, "rseed": rng.randint(0, 2**31 - 1)}
 
 
 def nontrivial(inp):
@@ -125,8 +127,22 @@ def build(inp) -> Case:
         s = Scores(np.array(pos, dtype=npdt), np.array(neg, dtype=npdt), nb_easy_pos=ep, nb_easy_neg=en, score_class=sc,
                    equal_class=ec)
     else:
-        s = Scores(pos, neg, nb_easy_pos=ep, nb_easy_neg=en, score_class=sc, equal_class=ec)
+        pa_, na_ = np.array(pos, dtype=float), np.array(neg, dtype=float)
+        s = Scores(pa_, na_, nb_easy_pos=ep, nb_easy_neg=en, score_class=sc, equal_class=ec)
     pre = []
+    if not inp.get("dt"):
+        # a second object from reversed views of the same buffers: constructors take sorted copies (harness/routes.py)
+        b_pa, b_na = routes.shared_views(Scores, pa_, na_, nb_easy_pos=ep, nb_easy_neg=en, score_class=sc, equal_class=ec)
+        if not (np.array_equal(pa_, b_pa) and np.array_equal(na_, b_na)):
+            pre.append(Issue("PROPFAIL", "crossing", f"constructing Scores from views of the caller's arrays changed them "
+                             f"(pos {b_pa.tolist()[:6]} -> {pa_.tolist()[:6]}): objects built from them earlier now hold other scores",
+                             "ctor/caller-array-modified"))
+    routed = None
+    if inp.get("route"):
+        r_ = routes.apply(s, inp["route"], inp.get("rseed", 0))
+        if r_ is not None and r_[1] and r_[2]:
+            s, pos, neg, ep, en, sc, ec = r_
+            routed = inp["route"]
     if inp.get("prior"):
         # earlier queries on the SAME object (eer() is a query: its result must not depend on the call history)
         for name, args in (("threshold_at_topr", (0.5,)), ("threshold_at_tonr", (0.25,)), ("threshold_at_fpr", (0.125,)),
@@ -153,6 +169,8 @@ def build(inp) -> Case:
         tags.append("dtype=" + inp["dt"])
     if inp.get("huge"):
         tags.append("easy>=5e7")
+    if routed:
+        tags.append("route=" + routed)
     if inp.get("prior"):
         tags.append("prior-calls")
     if ep or en:
